@@ -97,6 +97,23 @@ class Check:
     # ------------------------------------------------------------------ exploration
     def explore(self, key, params, label, time_limit=600.0, flags=None, serial=False):
         r = explore.run(key, params, time_limit=time_limit, flags=flags, serial=serial)
+        return self._account(r, key, label, time_limit)
+
+    def explore_many(self, jobs, width=None):
+        """runs several explorations concurrently (threads in the parent drive the shared process pool) and accounts for them in
+        the order given.  jobs: dicts with key, params, label and optionally time_limit, flags, serial.  returns the Results."""
+        from concurrent.futures import ThreadPoolExecutor
+
+        width = width or int(os.environ.get("NUSYM_WIDTH", "10"))
+        if explore.JOBS <= 1 or width <= 1 or len(jobs) <= 1:
+            return [self.explore(j["key"], j["params"], j["label"], j.get("time_limit", 600.0), j.get("flags"), j.get("serial", False)) for j in jobs]
+        explore.get_pool()  # fork the workers before any thread exists
+        with ThreadPoolExecutor(max_workers=width) as ex:
+            futs = [ex.submit(explore.run, j["key"], j["params"], j.get("time_limit", 600.0), j.get("flags"), j.get("serial", False), 120, True) for j in jobs]
+            rs = [f.result() for f in futs]
+        return [self._account(r, j["key"], j["label"], j.get("time_limit", 600.0)) for r, j in zip(rs, jobs)]
+
+    def _account(self, r, key, label, time_limit):
         self.res.merge(r)
         summ = dict(label=label, paths=r.stats["paths"], exhaustive=r.exhaustive, wall_s=round(r.wall, 2), counts={k: v for k, v in sorted(r.acc.counts.items())})
         self.runs.append(summ)
@@ -106,10 +123,12 @@ class Check:
             self.inconclusive.append(f"{label}: exploration not exhaustive within {time_limit}s")
         if r.stats["paths"] == 0 and not r.errors:
             self.inconclusive.append(f"{label}: vacuous (0 feasible paths)")
+        r.new_violations = []
         for v in r.acc.violations:
             v.setdefault("harness", key)
             v["label"] = label
             self.violations.append(v)
+            r.new_violations.append(v)
         return r
 
     def require(self, label, cond, what):
